@@ -19,7 +19,7 @@ def defs_key(o):
 
 
 def strip_faults(case):
-    return dict(case, ops=[op for op in case["ops"] if op[0] not in ("arm", "disarm")])
+    return dict(case, ops=[op for op in case["ops"] if op[0] not in ("arm", "arm_read", "disarm")])
 
 
 def oracle(cases, obs, twin_obs):
@@ -36,6 +36,8 @@ def oracle(cases, obs, twin_obs):
                 taint = k
             if op[0] == "arm":
                 armed = op[1]; continue
+            if op[0] == "arm_read":
+                armed = 10 ** 6; continue          # a read fault: the position among the writes is not known
             if op[0] == "disarm":
                 armed = None; continue
             t = tl[j] if j < len(tl) else None
@@ -46,6 +48,8 @@ def oracle(cases, obs, twin_obs):
                 fails.append((i, k, "definitions differ from those of the fault-free run")); break
             if tr and any(x in tr for x in ("dup", "ran_untriggered")):
                 fails.append((i, k, f"a task outside the triggered set ran, or one ran twice: {tr}")); break
+            if op[0] == "set" and o.get("fault_fired") and o["err"] != "Fault" and not str(o["err"]).startswith("Masked:"):
+                fails.append((i, k, f"an injected exception was raised inside the update but did not reach the caller (the call ended with {o['err']})")); break
             if op[0] == "set" and str(o["err"]).startswith("Masked:"):
                 fails.append((i, k, f"the exception raised by the failing write did not reach the caller: it was caught and {o['err'][7:]} raised instead")); break
             if op[0] == "set" and armed is not None:
